@@ -4,7 +4,7 @@
    (thrift = serialise o update o parse is opaque); hence C16_valid_after_any_updates, C16_data_untouched and
    C16_reader_finds_last_footer hold for the regenerated function (gen_update_file_framed / _sequence below).          *)
 From Coq Require Import NArith ZArith List Bool Arith Lia.
-From Pq Require Import Base.Bytes Proofs.BytesProofs Impl.KV Proofs.KVProofs Impl.PyFile Proofs.PyFileProofs.
+From Pq Require Import Base.Bytes Proofs.BytesProofs Impl.KV Proofs.KVProofs Impl.PyFile Proofs.PyFileProofs Impl.ParseHeader Proofs.ParseHeaderProofs.
 From PqGen Require Import GenUpdateFile.
 Import ListNotations.
 
@@ -67,3 +67,47 @@ Proof.
   rewrite E'. now apply rewrite_prefix_untouched.
 Qed.
 Print Assumptions gen_update_file_prefix.
+
+(* ANY SEQUENCE of updates through the regenerated function (C16_valid_after_any_updates lifted onto the regenerated text):
+   each update k is an arbitrary function thrift_k from the bytes read at the footer (old footer ++ length ++ magic) to the
+   new footer; the file stays  data ++ footer_k ++ le32 |footer_k| ++ PAR1  with the SAME data, whatever the footer sizes do. *)
+Definition next_footer (ft : bytes) (thrift : bytes -> bytes) : bytes :=
+  thrift (ft ++ le_enc 4 (N.of_nat (length ft)) ++ magic).
+
+Fixpoint run_updates (ts : list (bytes -> bytes)) (file : bytes) : option bytes :=
+  match ts with
+  | [] => Some file
+  | t :: r => match update_file_gen false t file with None => None | Some f => run_updates r f end
+  end.
+
+Theorem gen_update_file_sequence : forall (ts : list (bytes -> bytes)) data footer,
+  (N.of_nat (length footer) < 2 ^ 32)%N ->
+  (forall t x, In t ts -> (N.of_nat (length (t x)) < 2 ^ 32)%N) ->
+  run_updates ts (framed data footer) = Some (framed data (fold_left next_footer ts footer)).
+Proof.
+  induction ts as [|t r IH]; intros data footer H1 H2; [reflexivity|].
+  cbn [run_updates fold_left].
+  rewrite gen_update_file_framed; [|exact H1|apply H2; now left].
+  apply IH; [apply H2; now left|]. intros t' x Hin. apply H2. now right.
+Qed.
+Print Assumptions gen_update_file_sequence.
+
+(* ... the data part is byte-identical and the reader (hand model of _parse_header, proved equal to ITS regenerated text in
+   GenParseHeaderProofs) hands the last footer to the parser *)
+Theorem gen_update_file_sequence_data_and_reader : forall (ts : list (bytes -> bytes)) data footer out verify,
+  (N.of_nat (length footer) < 2 ^ 32)%N ->
+  (forall t x, In t ts -> (N.of_nat (length (t x)) < 2 ^ 32)%N) ->
+  (verify = true -> exists d', data = magic ++ d') ->
+  run_updates ts (framed data footer) = Some out ->
+  firstn (length data) out = data /\
+  parse_header false verify out = Some (fold_left next_footer ts footer, N.of_nat (length (fold_left next_footer ts footer))).
+Proof.
+  intros ts data footer out verify H1 H2 Hm E. rewrite gen_update_file_sequence in E by assumption.
+  assert (E' : out = framed data (fold_left next_footer ts footer)) by congruence. subst out. split.
+  - unfold framed. apply firstn_app_exact.
+  - apply parse_header_framed.
+    + clear E. revert footer H1. induction ts as [|t r IH]; intros footer H1; [exact H1|].
+      cbn [fold_left]. apply IH; [intros t' x Hin; apply H2; now right|]. unfold next_footer. apply H2. now left.
+    + intros Hv. destruct (Hm Hv) as [d' Ed]. subst data. reflexivity.
+Qed.
+Print Assumptions gen_update_file_sequence_data_and_reader.
